@@ -479,25 +479,31 @@ def _rv(xs, on):
     return xs[::-1] if on else xs
 
 
-def _sweep_shapes(extra_names, gen_extra, states, nbs=1, long_ok=True, modes=(False, True)):
+def _sweep_shapes(extra_names, gen_extra, states, nbs=1, long_ok=True, modes=(False, True), needles=(('obj', 'Bits', 'immutable'),)):
     out = []
     for cls, st in states:
+      for needle in needles:
         for ba in BA_KINDS:
             for lsb0 in modes:
-                def build(S, interp, cls=cls, st=st, ba=ba):
+                def build(S, interp, cls=cls, st=st, ba=ba, needle=needle):
                     o = m_bits(S, interp, 'self', cls, st)
-                    ops = [m_operand(S, interp, f'bs{i}', ('obj', 'Bits', 'immutable'), o) for i in range(nbs)]
+                    ops = [m_operand(S, interp, f'bs{i}', needle, o) for i in range(nbs)]
                     return [o] + ops + [mk_opt(S, nm, 'int') for nm in extra_names] + [ba], {}
 
-                def real(vals, cls=cls, st=st, ba=ba):
+                def real(vals, cls=cls, st=st, ba=ba, needle=needle):
                     o = r_bits(vals, 'self', cls, st)
-                    ops = [r_operand(vals, f'bs{i}', ('obj', 'Bits', 'immutable'), o) for i in range(nbs)]
+                    ops = [r_operand(vals, f'bs{i}', needle, o) for i in range(nbs)]
                     return [o] + ops + [vals[nm] for nm in extra_names] + [ba], {}
 
-                def gen(rng, cls=cls):
+                def gen(rng, cls=cls, needle=needle):
                     long = long_ok and rng.random() < 0.08
                     data, pat = _long_inputs(rng) if long else _periodic_inputs(rng)
                     v = {'self': data, 'bs0': pat}
+                    if needle[-1] == 'buffer':
+                        # the pattern is a buffer-backed object whose buffer is longer than its logical length
+                        raw = list(pat) + [rng.random() < 0.5 for _ in range(rng.choice([1, 5, 8, 11]))]
+                        raw += [False] * (-len(raw) % 8)
+                        v = {'self': data, 'bs0.raw': raw, 'bs0.ml': len(pat)}
                     for i in range(1, nbs):
                         v[f'bs{i}'] = [rng.random() < 0.5 for _ in range(rng.choice([0, 1, len(pat), 8, 3]))]
                     if cls in ('ConstBitStream', 'BitStream'):
@@ -510,8 +516,8 @@ def _sweep_shapes(extra_names, gen_extra, states, nbs=1, long_ok=True, modes=(Fa
                             if nm in v:
                                 v[nm] = rng.choice(choices)
                     return v
-                out.append(Shape(f'{cls}/{st}/ba={ba}/lsb0={lsb0}', build, real, gen=gen, stable=False, bounded_only=True,
-                                 opts={'lsb0': True} if lsb0 else {}, props=({'C07', 'C12'} if lsb0 else {'C07'})))
+                out.append(Shape(f'{cls}/{st}/ba={ba}/lsb0={lsb0}' + ('/needle-buffer' if needle[-1] == 'buffer' else ''), build, real, gen=gen, stable=False, bounded_only=True,
+                                 opts={'lsb0': True} if lsb0 else {}, props=({'C07', 'C12'} if lsb0 else {'C07'}) | ({'C08'} if needle[-1] == 'buffer' else set())))
     return out
 
 
@@ -541,7 +547,8 @@ def _find_sweep_spec(first):
 _PLAIN = [s for s in SELF_STATES_MEM if s[0] in ('Bits', 'BitArray')]
 _STRM = [s for s in SELF_STATES_MEM if s[0] in ('ConstBitStream', 'BitStream')]
 for _nm, _first in (('find', True), ('rfind', False)):
-    contract(f'bits.Bits.{_nm}@sweep', target=f'bits.Bits.{_nm}', shapes=_sweep_shapes(*_se, states=_PLAIN), props={'C07'}, kind='public',
+    contract(f'bits.Bits.{_nm}@sweep', target=f'bits.Bits.{_nm}', shapes=_sweep_shapes(*_se, states=_PLAIN, needles=(('obj', 'Bits', 'immutable'), ('obj', 'Bits', 'buffer'))),
+             props={'C07', 'C08'}, kind='public',
              note=f"{_nm} against the brute-force scan in both bit numberings, aligned and not, short periodic and > 8192-bit data  (BOUNDED)")(_find_sweep_spec(_first))
     contract(f'bitstream.ConstBitStream.{_nm}@sweep', target=f'bitstream.ConstBitStream.{_nm}', shapes=_sweep_shapes(*_se, states=_STRM), props={'C07', 'C06'},
              kind='public', note=f"as Bits.{_nm}; pos moves to the match  (BOUNDED)")(_find_sweep_spec(_first))
